@@ -9,9 +9,9 @@ TIERS = {
     # (model cfgs, generator cfgs, concretisation variants)
     # (model cfgs, generator cfgs, concretisation variants per cfg)
     "quick": (["MV_peer_q.cfg", "MV_self_q.cfg", "MV_k_q.cfg"], ["MV_peer_q_gen.cfg", "MV_self_q_gen.cfg", "MV_k_q_gen.cfg"],
-              [[0, 1], [0, 2], [0]]),
+              [[0, 1, 100], [0, 2], [0]]),
     "thorough": (["MV_peer_t.cfg", "MV_self_t.cfg", "MV_k_t.cfg"],
-                 ["MV_peer_t_gen.cfg", "MV_self_t_gen.cfg", "MV_k_t_gen.cfg"], [[0, 1, 2], [0, 1, 2], [0, 1]]),
+                 ["MV_peer_t_gen.cfg", "MV_self_t_gen.cfg", "MV_k_t_gen.cfg"], [[0, 1, 2, 100], [0, 1, 2], [0, 1]]),
 }
 
 
@@ -39,7 +39,10 @@ def view_stage(work, res, tier, prefixes, replay=None):
         edges = replay + ".edges"
         if not os.path.exists(edges):
             raise Infra("no edge file next to " + replay)
-        tr = replay_edges(work, binp, edges, 0, 1)
+        variant = 0
+        if os.path.exists(replay + ".variant"):
+            variant = int(open(replay + ".variant").read().strip() or 0)
+        tr = replay_edges(work, binp, edges, variant, 1)
         tr["judged"] = vlib.judge(work, "TraceView", "TraceView.cfg", tr["trace"])
         traces = [tr]
     else:
@@ -55,7 +58,7 @@ def view_stage(work, res, tier, prefixes, replay=None):
                 (models[i], r["states"], r["transitions"], r["wall_s"], n))
             out = []
             for v in variants[i]:
-                tr = replay_edges(work, binp, edges, v, per, sample=(1.0 if v == 0 else (0.34 if tier == "quick" else 0.2)))
+                tr = replay_edges(work, binp, edges, v, per, sample=(1.0 if v == 0 else (0.34 if tier == "quick" else (1.0 if v == 100 else 0.2))))
                 tr["judged"] = judge_chunked(work, tr["trace"], per)
                 log("judged %d lines of %s (variant %s)" % (tr["judged"]["lines"], gens[i], tr["variant"]))
                 out.append(tr)
@@ -118,6 +121,9 @@ def view_stage(work, res, tier, prefixes, replay=None):
                 if len(res.violations) > n0 and res.violations[-1][2]:
                     with open(res.violations[-1][2] + ".edges", "w") as fh:
                         fh.write(edge_lines.get(case, ""))
+                    if tr["variant"].endswith("+overlap"):
+                        with open(res.violations[-1][2] + ".variant", "w") as fh:
+                            fh.write("100\n")
             nverd += len(mine)
         if not res.cov["samples"] or len(res.cov["samples"]) < 3:
             res.cov["samples"] += tr.get("samples") or trace_samples(tr["trace"])
